@@ -7,8 +7,11 @@ src = sys.argv[6] if len(sys.argv) > 6 else prop
 d = f"/verif/seeded/{name}"
 os.makedirs(d, exist_ok=True)
 shutil.copy(f"/tmp/wt/{src}.patch.diff", f"{d}/patch.diff")
-for f in glob.glob(f"/tmp/wt/{src}.demo/*"):
-    shutil.copy(f, d)
+for f in glob.glob(f"/tmp/wt/{src}.demo/**", recursive=True):
+    if os.path.isfile(f):
+        # (demo files may sit in sub-directories: flatten, keeping the path in the name)
+        rel = os.path.relpath(f, f"/tmp/wt/{src}.demo").replace(os.sep, "__")
+        shutil.copy(f, os.path.join(d, rel))
 if os.path.exists(f"/tmp/wt/{src}.report.md"):
     shutil.copy(f"/tmp/wt/{src}.report.md", f"{d}/agent_report.md")
 json.dump({"breaks_property": prop, "needs_to_manifest": needs, "what_was_run": ran, "verdict": verdict,
